@@ -172,13 +172,17 @@ func c12Census(ctx *core.Ctx, rep *core.Report) {
 
 type seqCert struct{}
 
-func (seqCert) CheckApplies(*x509.Certificate) bool        { return true }
-func (seqCert) Execute(*x509.Certificate) *lint.LintResult { return &lint.LintResult{Status: lint.Pass} }
+func (seqCert) CheckApplies(*x509.Certificate) bool { return true }
+func (seqCert) Execute(*x509.Certificate) *lint.LintResult {
+	return &lint.LintResult{Status: lint.Pass}
+}
 
 type seqCRL struct{}
 
-func (seqCRL) CheckApplies(*x509.RevocationList) bool        { return true }
-func (seqCRL) Execute(*x509.RevocationList) *lint.LintResult { return &lint.LintResult{Status: lint.Pass} }
+func (seqCRL) CheckApplies(*x509.RevocationList) bool { return true }
+func (seqCRL) Execute(*x509.RevocationList) *lint.LintResult {
+	return &lint.LintResult{Status: lint.Pass}
+}
 
 type seqOCSP struct{}
 
